@@ -190,10 +190,25 @@ func c10Anchored(p *Prog, r *Report) {
 				if grel != rel {
 					continue
 				}
-				switch g.Name() {
-				case "cancel", "cancelSend", "close", "Close", "cancel$1":
-				default:
-					if g.Parent() == nil || g.Parent().Name() != "cancel" {
+				isCloser := func(h *ssa.Function) bool {
+					switch h.Name() {
+					case "cancel", "cancelSend", "close", "Close", "cancel$1":
+						return true
+					}
+					return h.Parent() != nil && h.Parent().Name() == "cancel"
+				}
+				if !isCloser(g) {
+					// a private helper reached only from cancel/close functions counts as them
+					okAttr := false
+					if attr := p.attributedTo(p.FuncName(g)); len(attr) > 0 && !(len(attr) == 1 && attr[0] == p.FuncName(g)) {
+						okAttr = true
+						for _, an := range attr {
+							if h := p.byName[an]; h == nil || !isCloser(h) {
+								okAttr = false
+							}
+						}
+					}
+					if !okAttr {
 						continue
 					}
 				}
